@@ -493,6 +493,94 @@ func sectionRules(P *Program, r *Result, ruleErr, ruleMap string) {
 		}
 	}
 	r.add(ruleErr, shortName(rk), "loop", "the header can only end with success at an info-id boundary", P.pos(rk.Pos()), okLoop, detailLoop)
+	// ... and only where nothing is left unread: the success return sits on the failing side of the one-byte read of
+	// the next info id, or behind a test that says the position about to be read is at or past the end
+	if header != nil {
+		var buf *ssa.Parameter
+		for _, p := range rk.Params {
+			if isByteSlice(p.Type()) {
+				buf = p
+			}
+		}
+		A := newAnalysis(P)
+		fa := A.fa(rk)
+		for _, ret := range returnsOf(rk) {
+			rv := ret.Results[len(ret.Results)-1]
+			if fa.prove(ineqGE(fa.nilExpand(rv), linConst(1)), ret.Block(), rootCtx) {
+				continue
+			}
+			okEnd := false
+			// (a) the failing side of the one-byte primitive
+			for _, c := range callsIn(rk) {
+				cc, isCall := c.(*ssa.Call)
+				cal := c.Common().StaticCallee()
+				if !isCall || cal == nil || cal.Name() != "Bytes2Uint8" || !inRepo(cal) || len(c.Common().Args) < 1 || c.Common().Args[0] != ssa.Value(buf) {
+					continue
+				}
+				ev := resultValue(cc, errIndex(cal))
+				if ev == nil {
+					continue
+				}
+				_, neq := nilTests(ev)
+				for _, t := range neq {
+					for _, ce := range testsOf(t) {
+						succ := ce.If.Block().Succs[0]
+						if !ce.Truth {
+							succ = ce.If.Block().Succs[1]
+						}
+						if succ == ret.Block() || succ.Dominates(ret.Block()) {
+							okEnd = true
+						}
+					}
+				}
+			}
+			// (b) a test "len(buf) ≤ e" where e is a position the loop reads next
+			if !okEnd && buf != nil {
+				bd := fa.sliceDesc(buf)
+				lenID, isAtom := singleAtom(bd.Len)
+				var reads []ssa.Value
+				for _, b := range rk.Blocks {
+					for _, in := range b.Instrs {
+						switch x := in.(type) {
+						case *ssa.IndexAddr:
+							if x.X == ssa.Value(buf) {
+								reads = append(reads, x.Index)
+							}
+						case *ssa.Call:
+							if cal := x.Common().StaticCallee(); cal != nil && prim[cal.Name()] && len(x.Common().Args) == 2 && x.Common().Args[0] == ssa.Value(buf) {
+								reads = append(reads, x.Common().Args[1])
+							}
+						}
+					}
+				}
+				for x := ret.Block(); isAtom && x != nil && !okEnd; x = x.Idom() {
+					if len(x.Preds) != 1 {
+						continue
+					}
+					p := x.Preds[0]
+					iff, isIf := p.Instrs[len(p.Instrs)-1].(*ssa.If)
+					if !isIf || p.Succs[0] == p.Succs[1] {
+						continue
+					}
+					ef := &edgeFacts{}
+					fa.condFacts(iff.Cond, p.Succs[0] == x, ef)
+					for _, f := range ef.ineq {
+						f = normIneq(f)
+						if c, has := f.T[lenID]; !has || c.Cmp(bi(1)) != 0 {
+							continue
+						}
+						e := bd.Len.sub(f) // f: len − e ≤ 0
+						for _, rd := range reads {
+							if fa.proveEq(e, fa.expand(rd), p) {
+								okEnd = true
+							}
+						}
+					}
+				}
+			}
+			r.add(ruleErr, shortName(rk), "end", "the header ends with success only where no unread byte is left", P.pos(instrPos(ret)), okEnd, "")
+		}
+	}
 	// MAP-KEEP
 	for _, b := range rk.Blocks {
 		for _, in := range b.Instrs {
@@ -824,7 +912,9 @@ func checkC06(P *Program, r *Result, tier string) {
 	}
 	// the leaf writers whose reported count the cluster adds up
 	leafSeen := map[*ssa.Function]bool{}
-	for _, f := range cluster {
+	work := append([]*ssa.Function{}, cluster...)
+	for wi := 0; wi < len(work); wi++ {
+		f := work[wi]
 		for _, c := range callsIn(f) {
 			cal := c.Common().StaticCallee()
 			if cal == nil || !inRepo(cal) || cal.Blocks == nil || leafSeen[cal] {
@@ -841,6 +931,7 @@ func checkC06(P *Program, r *Result, tier string) {
 				continue
 			}
 			leafSeen[cal] = true
+			work = append(work, cal)
 			r.Funcs[shortName(cal)] = true
 			countRule(P, r, run, cal, cluster)
 		}
@@ -975,6 +1066,13 @@ func countRule(P *Program, r *Result, run *e1Run, fn *ssa.Function, cluster []*s
 				}
 			}
 		}
+		// a leaf writer (checked by this rule in its own right): it emits what it reports
+		if res := cal.Signature.Results(); inRepo(cal) && cal.Blocks != nil && res.Len() == 2 && isInteger(res.At(0).Type()) && isErrorType(res.At(1).Type()) &&
+			len(cal.Params) > 0 && types.IsInterface(cal.Params[len(cal.Params)-1].Type()) {
+			if v := resultValue(c, 0); v != nil {
+				return fa.expand(v)
+			}
+		}
 		// a repository helper that only reports an error: the constant number of bytes all its success paths emit
 		if k, ok := constEmission(cal, 0); ok && k > 0 {
 			return linConst(k)
@@ -1025,7 +1123,7 @@ func countRule(P *Program, r *Result, run *e1Run, fn *ssa.Function, cluster []*s
 	}
 	final := fa.expand(succRet.Results[0])
 	entrySize := linConst(0) // a leaf writer reports the bytes it emitted itself
-	if len(fn.Params) > 0 && isInteger(fn.Params[0].Type()) {
+	if len(fn.Params) > 0 && isInteger(fn.Params[0].Type()) && types.Identical(fn.Params[0].Type(), succRet.Results[0].Type()) {
 		entrySize = fa.expand(fn.Params[0])
 	}
 	paths, bad := 0, ""
@@ -1815,7 +1913,7 @@ func sizeThreadingCluster(root *ssa.Function) []*ssa.Function {
 		}
 		res := f.Signature.Results()
 		return res.Len() == 2 && isInteger(res.At(0).Type()) && isErrorType(res.At(1).Type()) &&
-			isInteger(f.Params[0].Type()) && types.IsInterface(f.Params[len(f.Params)-1].Type())
+			isInteger(f.Params[0].Type()) && types.Identical(f.Params[0].Type(), res.At(0).Type()) && types.IsInterface(f.Params[len(f.Params)-1].Type())
 	}
 	out := []*ssa.Function{root}
 	seen := map[*ssa.Function]bool{root: true}
